@@ -516,6 +516,10 @@ def _linear_batch_rule(
     x_bdim, w_bdim, b_bdim = batch_dims
     if w_bdim is not None or b_bdim is not None:
         raise NotImplementedError("Batching over Linear parameters is not supported.")
+    # The contracted axis is the last one: keep the batch axis in front of it.
+    if x_bdim is not None and x_bdim != 0:
+        x = jnp.moveaxis(x, x_bdim, 0)
+        x_bdim = 0
     out = LinearPlugin._PRIM.bind(x, weight, bias)
     return out, x_bdim
 
